@@ -55,6 +55,9 @@ def run(ctx):
     ctx.attempt("check_deserializer", check_deserializer, ctx, lib)
     ctx.attempt("check_completeness", check_completeness, ctx, lib)
     ctx.attempt("check_entry", check_entry, ctx, lib)
+    # a Variable is also a serde data *source* (results handed to serde_json / to T::deserialize): its Serialize table (shared with C08)
+    from . import c08
+    ctx.attempt("check_serialize", c08.check_serialize, ctx, lib)
 
 
 # =============================================================================================
